@@ -1,6 +1,7 @@
 import Driver.Common
 import Model.Files
 import Model.Params
+import Model.ResultsObj
 open Lean Drv
 
 namespace D14
@@ -122,6 +123,77 @@ def parseRows (j : Json) : Except String (List (Bool × Reports.Row)) := do
 
 def jTexts (l : List (List Char)) : Json := jStrs (l.map str)
 
+
+/-! ### results object (attributes, save / load, which report reads what) -/
+
+open ResObj in
+def slotJson (s : Slot String) : Json :=
+  match s with
+  | .absent => jStr "absent"
+  | .none => jStr "none"
+  | .val _ => jStr "val"
+
+open ResObj in
+def objJson (o : Obj String) : Json :=
+  jArr (allAttrs.map fun a => jArr [jStr a.name, slotJson (o a)])
+
+open ResObj in
+def outcomeJson : Except Err Unit → Json
+  | .ok () => jStr "ok"
+  | .error .attributeError => jStr "AttributeError"
+  | .error .typeError => jStr "TypeError"
+
+open ResObj in
+def viewsJson (o : Obj String) (k : Nat) : Json :=
+  jArr (views.map fun (n, v) => jArr [jStr n, outcomeJson (runView o k v)])
+
+open ResObj in
+def parseFileAttr (s : String) : Except String FileAttr :=
+  match s with
+  | "html" => pure .html
+  | "f12" => pure .f12
+  | "latex" => pure .latex
+  | "pickle" => pure .pickle
+  | _ => throw "bad-op"
+
+open ResObj in
+def resobj (j : Json) : Except String Json := do
+  let c : Ctor String := {
+    vals := fun a => a.name
+    userNotes := ← getBool j "userNotes"
+    initLogLike := ← getBool j "initLogLike"
+    nullLogLike := ← getBool j "nullLogLike"
+    g := ← getBool j "g"
+    H := ← getBool j "H"
+    bhhh := ← getBool j "bhhh"
+    bootstrap := ← getBool j "bootstrap"
+    k := ← getNat j "k" }
+  let ws ← (← strList (← j.getObjVal? "writes")).mapM parseFileAttr
+  let pre ← (← strList (← j.getObjVal? "pre_writes")).mapM parseFileAttr
+  -- the statistics are abstract: every one is a value (no ZeroDivisionError)
+  let F : Attr → Obj String → Option String := fun a _ => some a.name
+  match build F c with
+  | .error e => pure (Json.mkObj [("built", outcomeJson (.error e))])
+  | .ok r0 =>
+    -- report / pickle files already written for this object (estimate() writes them itself)
+    let r := record r0 (pre.map fun f => (f, "file"))
+    let r1 := record r (ws.map fun f => (f, "file"))
+    let (s, bytes) := writePickle (fun o => o) r1 "pickle"
+    let loaded := loadPickle F (fun b => b) bytes
+    -- the same after a pickle that keeps only what `_calculate_stats` does not assign
+    let lossy := loadPickle F (fun b => b) (dropDerived s)
+    let lj (x : Except Err (Obj String)) : List (String × Json) → List (String × Json) := fun acc =>
+      match x with
+      | .ok o => acc ++ [("loaded", objJson o), ("views_loaded", viewsJson o c.k)]
+      | .error e => acc ++ [("loaded", outcomeJson (.error e))]
+    let same (x : Except Err (Obj String)) : Bool :=
+      match x with
+      | .ok o => allAttrs.all fun a => o a == s a
+      | .error _ => false
+    pure (Json.mkObj (lj loaded [("built", jStr "ok"), ("before", objJson r), ("views_before", viewsJson r c.k),
+      ("saved", objJson s), ("views_saved", viewsJson s c.k),
+      ("loaded_equals_saved", jBool (same loaded)), ("lossy_equals_saved", jBool (same lossy))]))
+
 def handle (j : Json) : Except String Json := do
   let op ← getStr j "op"
   match op with
@@ -167,6 +239,22 @@ def handle (j : Json) : Except String Json := do
     let name ← getStr j "name"
     let v ← parseVal (← j.getObjVal? "value")
     pure (resJson (Params.setValue algos ps sec name v))
+  | "get_value" =>
+    -- `Parameters.get_value(name, section)` for a list of (section | null, name) queries
+    let ps ← parseEntries j "params"
+    let qs ← getArr j "queries"
+    let outs ← qs.toList.mapM fun q => do
+      let sec : Option String ←
+        match q.getObjVal? "sec" with
+        | .ok Json.null => pure none
+        | .ok (Json.str s) => pure (some s)
+        | _ => throw "bad-op"
+      let name ← getStr q "name"
+      match Params.resolve ps sec name with
+      | .ok e => pure (Json.mkObj [("ok", valJson e.value)])
+      | .error .refused => pure (Json.mkObj [("err", jStr "refused")])
+      | .error .typeError => pure (Json.mkObj [("err", jStr "typeError")])
+    pure (Json.mkObj [("values", jArr outs)])
   | "roundtrip" =>
     -- set a value, dump, read into a fresh default table
     let algos ← strList (← j.getObjVal? "algos")
@@ -209,6 +297,9 @@ def handle (j : Json) : Except String Json := do
       ("latex", jTexts (Reports.latexRows Reports.latexFmt plain)),
       ("latex_fixed", jTexts (Reports.latexRows Reports.latexFmtFixed plain)),
       ("f12", jTexts (Reports.f12Rows rs))])
+  | "resobj" => resobj j
+  | "attr_table" =>
+    pure (Json.mkObj [("table", jArr (ResObj.sourceTable.map fun (n, w, gs) => jArr [jStr n, jStr w, jStrs gs]))])
   | _ => throw "bad-op"
 
 end D14
